@@ -37,7 +37,11 @@ def run(ctx):
     from . import r_rank as RR
     RR.search_chain_shape(ctx, "R06.a", parts=("complete", "score", "filter"))
     RC20.buffer_rules(ctx, None, None, "R20.f")
-    return info("Necessary constants/shapes for prefix search: the Jaccard gate accepts distance 1/2 (first keystroke), "
+    from . import r_word as RW
+    RR.hit_from_record(ctx, "R03.k")
+    RW.word_field_from_lang(ctx, "R03.k", "set_stem", "stem", "Lang::stem")
+    return info("R03.k: a hit carries the whole title of its record (no truncation) and the stem of a word is computed from exactly the word's characters. "
+                "Necessary constants/shapes for prefix search: the Jaccard gate accepts distance 1/2 (first keystroke), "
                 "the length and DL gates accept distance 0, the gram iterator starts at width 1 and index writer and "
                 "reader share one gram generator, the candidate cap is at least the limit, and for an unfinished query "
                 "word the record side of the length/Jaccard gates is clipped to the typed length.")
